@@ -14,6 +14,7 @@ import (
 	"strings"
 	"sync"
 	"time"
+	"unicode/utf8"
 
 	"google.golang.org/grpc"
 	"google.golang.org/grpc/codes"
@@ -596,6 +597,10 @@ func (m *Mux) serveGRPC(w http.ResponseWriter, r *http.Request) {
 		h.Set("Grpc-Message", encodeGrpcMessage(m))
 	}
 	if p := st.Proto(); p != nil && len(p.Details) > 0 {
+		if !utf8.ValidString(p.Message) {
+			// Keep the status encodable (st.Proto returns a copy).
+			p.Message = strings.ToValidUTF8(p.Message, "\uFFFD")
+		}
 		stBytes, err := proto.Marshal(p)
 		if err != nil {
 			panic(err)
